@@ -276,3 +276,43 @@ def k5(ctx: Ctx, K: Kinds):
                 ctx.ob(rule, fi.qual, show(e.value)[:80], ok,
                        f"{name}() is told its text is already encoded by something other than a documented `encoded` flag: "
                        "unquoted text would be stored", where(fi, e.node), sample="encoded omitted / False / the caller's documented flag")
+
+
+def k_mix(ctx: Ctx, K: Kinds):
+    """Lengths / offsets measured on decoded text must not be used to cut encoded text (and vice versa): an escape is
+    three characters in the encoded form and one in the decoded form."""
+    model = ctx.model
+    rule = "K-MIX"
+    ctx.rule(rule, floor=1, what="slice bounds measured on text of the same kind as the text being cut")
+    n = 0
+    for fi, bind, pk, r in contexts(K, model):
+        sites = {}
+        for e in r.by_kind("sub"):
+            if e.index[0] != "slice":
+                continue
+            lens = [t for t in walk(e.index) if t[0] == "call" and t[1] == ("builtin", "len") and len(t[2]) == 1]
+            finds = [t for t in walk(e.index) if t[0] == "call" and t[1][0] == "attr" and t[1][2] in ("find", "rfind", "index", "rindex")]
+            if not lens and not finds:
+                continue
+            kb = K.kind(e.base, e.state.facts, fi, pk, r)
+            for t in lens + finds:
+                measured = t[2][0] if t[1] == ("builtin", "len") else t[1][1]
+                km = K.kind(measured, e.state.facts, fi, pk, r)
+                enc_b = any(x.startswith("ENC") or x in (RAW, OPQ) for x in kb)
+                dec_b = DEC in kb
+                enc_m = any(x.startswith("ENC") or x in (RAW, OPQ) for x in km)
+                dec_m = DEC in km
+                bad = (enc_b and dec_m and not enc_m) or (dec_b and enc_m and not dec_m)
+                sites.setdefault((id(e.node), show(t)[:60]), [e.node, f"{show(e.base)[:40]}[.. {show(t)[:40]} ..]", []])[2].append(
+                    (bad, sorted(kb), sorted(km)))
+        for node, cons, results in sites.values():
+            ctx.instance(rule)
+            n += 1
+            bads = [x for x in results if x[0]]
+            ctx.ob(rule, fi.qual, cons, not bads,
+                   f"text of kind {bads[0][1] if bads else ''} is cut at a position measured on text of kind {bads[0][2] if bads else ''}: "
+                   "the lengths of encoded and decoded text differ wherever there is an escape", where(fi, node),
+                   sample=f"base {results[0][1]}, measured {results[0][2]}")
+    if not n:
+        ctx.instance(rule)
+        ctx.ob(rule, "<package>", "length-derived slice bounds", True, sample="none present", nontrivial=False)
